@@ -1,6 +1,22 @@
-"""C08 (narrow): general_stat equals its definition and is additive over windows in the exact-integer regime."""
+"""C08 (narrow): four statistics equal their definitions and are additive over windows in the exact-integer regime (C);
+the Python sample_count_stat builds the indicator weights (CrossHair)."""
+import os
+import sys
+
+HERE = os.path.dirname(os.path.dirname(os.path.abspath(__file__)))
+sys.path.insert(0, os.path.join(HERE, 'engine'))
 
 H = 'c08_stats.c'
+
+
+def conds(tier):
+    enc = ['tskit.trees.TreeSequence.sample_count_stat']
+    return [
+        dict(module='c08_props', function='indicator_weights', timeout=120, encodes=enc,
+             what='W[i][k] = 1 iff the i-th sample is in set k, for 3 samples with free ids in [0,4] and two sets; options passed through'),
+        dict(module='c08_props', function='non_samples_and_duplicates_rejected', timeout=120,
+             what='repeated elements / non-sample nodes in a sample set raise ValueError'),
+    ]
 
 
 def jobs(tier):
@@ -54,7 +70,7 @@ BOUNDS = {
 }
 OUTSIDE = ['every statistic that divides or uses non-integer weights other than the folded AFS half-weights: span_normalise=True, diversity, Fst, Tajimas_D, f-statistics, '
            'LD, relatedness, divergence matrix between sets of more than one sample, pair coalescence with time windows / quantiles / rates / normalisation ... (floating point is their subject)',
-           'worker threads / num_threads (no concurrency in the engine)', 'Python argument shaping (numpy)',
+           'worker threads / num_threads (no concurrency in the engine)', 'Python argument shaping other than the sample_count_stat weight matrix (numpy)',
            'windows given as "trees"/"sites"', 'summary functions other than the identity']
 ASSUMPTIONS = ['pair coalescence: a pair one of whose members is an ancestor of the other is not counted (maintainers\' reading, test_coalrate.py test_internal_samples); halves of spans are kept exact by proving the span even on the path', 'all intermediates are integer-valued doubles, encoded exactly as integers (a path that leaves this regime would end as '
                'inconclusive; none does); the folded site AFS adds concrete halves',
@@ -66,4 +82,10 @@ MANIFEST = dict(
          'the real tsk_treeseq_allele_frequency_spectrum (branch/site, polarised/folded, one set or the joint spectrum of two) equals the docs/stats.md definition per window; the real tsk_treeseq_divergence_matrix between single samples (branch: path lengths to the MRCA or to the own roots; site: differing alleles) equals its definition, is symmetric with zero diagonal and additive over the refinement; the real tsk_treeseq_pair_coalescence_counts equals span x number of sample pairs with that MRCA per node and window.  '
          'Normalised statistics, the named statistics built on non-trivial summary functions and thread schedules are NOT covered.',
     note='Only the incremental state propagation, window accounting and allele weighting of the general framework and of the AFS; see outside_claim.',
-    technique='symbolic execution of LLVM IR + SMT (z3) with exact integer-backed doubles, bounded, differential against the definition')
+    technique='symbolic execution of LLVM IR + SMT (z3) with exact integer-backed doubles, bounded, differential against the definition; CrossHair on the Python weight-matrix construction')
+
+
+def run(pid, tier, seed, only=None):
+    import mixed
+    return mixed.run_mixed(pid, tier, seed, only, jobs(tier), conds(tier), BOUNDS[tier], OUTSIDE, ASSUMPTIONS,
+                           ['fake tree sequence: samples(), node().is_sample(), general_stat recorder'])
